@@ -1126,6 +1126,9 @@ func (ex *Exec) makeRange(v Value) Value {
 	switch x := v.(type) {
 	case MapV:
 		it := &rangeIter{kind: "map", m: x.M}
+		if x.M != nil && ex.race != nil {
+			ex.race.accessMap(ex, x.M, false)
+		}
 		if x.M != nil {
 			n := len(x.M.Keys)
 			order := make([]int, n)
@@ -1243,6 +1246,9 @@ func (ex *Exec) mapFind(m *MapObj, k Value) int {
 	if m == nil {
 		return -1
 	}
+	if ex.race != nil {
+		ex.race.accessMap(ex, m, false)
+	}
 	for i, k2 := range m.Keys {
 		if ex.branch(ex.keyEq(k, k2)) {
 			return i
@@ -1265,11 +1271,17 @@ func (ex *Exec) mapSet(m *MapObj, k, v Value) {
 		if m.Frozen != "" && !(m.Vals[i].Kids == nil && sameValue(m.Vals[i].V, v)) {
 			ex.frozenMap(m)
 		}
+		if ex.race != nil {
+			ex.race.accessMap(ex, m, true)
+		}
 		ex.storeRaw(m.Vals[i], v)
 		return
 	}
 	if m.Frozen != "" {
 		ex.frozenMap(m)
+	}
+	if ex.race != nil {
+		ex.race.accessMap(ex, m, true)
 	}
 	l := ex.newLoc(m.VT)
 	ex.storeRaw(l, v)
@@ -1284,6 +1296,9 @@ func (ex *Exec) mapDelete(m *MapObj, k Value) {
 	}
 	if m.Frozen != "" {
 		ex.frozenMap(m)
+	}
+	if ex.race != nil {
+		ex.race.accessMap(ex, m, true)
 	}
 	m.Keys = append(append([]Value(nil), m.Keys[:i]...), m.Keys[i+1:]...)
 	m.Vals = append(append([]*Loc(nil), m.Vals[:i]...), m.Vals[i+1:]...)
